@@ -60,7 +60,7 @@ func c09(c *Ctx) {
 	r.Technique = "must-pass-through (cut) checks of the per-key acceptance gates and of the count gate; correlation analysis of permit / connection id / listening goroutine / verdicts on every path of the OFFER handler; value-flow of queue element fields"
 	r.Explanation = "Decides: (R1) the verdict container is created with one slot per offered key in both encodings; (R2) inside the filter loops a key is appended to the accepted list, and marked accepted, only under in-range = true, storage.Get error != nil and (code-list encoding) not in the in-flight cache, and marking and appending happen together; (R3) in the OFFER handler the goroutine that waits on the connection is started only on the edge where a transfer slot was obtained, the connection id announced is the Send id of the very connection that goroutine accepts on and is 0 on every other path, and on the no-slot path the accepted verdicts of every accept encoding the filters can produce are overwritten; (R4) the validation queue receives an element only under len(keys) == len(contents), carrying the accepted-keys value and the decoded contents unmodified; (R5) on the offering side accepted indices are used only after the verdict count equalled the number offered and a non-empty accepted set, and contents are selected by accepted index in order; (R6) keys cached as in-flight by the receiving goroutine are removed by a deferred call on all its exits. Not decided: concurrency of overlapping offers, delivery, the behaviour of the uTP dependency."
 	r.Assumptions = []string{"go-bitfield Bitlist semantics", "uTP AcceptWithCid waits on exactly the given connection id"}
-	r.Floor("R1.verdict-length", 2)
+	r.Floor("R1.verdict-length", 3)
 	r.Floor("R2.accept-gates", 6)
 	r.Floor("R3.handler-correlation", 4)
 	r.Floor("R4.enqueue", 3)
@@ -92,6 +92,66 @@ func c09(c *Ctx) {
 			}
 		}
 		r.Check(okLen, "R1.verdict-length", name, p.Pos(f.Pos()), "verdict container sized len(request.ContentKeys)", "the verdict container is not created with one slot per offered key")
+
+		// ---- R1b (code-list encoding): the zero value of a verdict is Accepted, so a slot nobody
+		// wrote reads "accepted". Every success exit passes the loop over the offered keys, and
+		// every pass through the loop body writes that key's slot before moving on.
+		if at == "AcceptV1" {
+			// the loop: a block that loads request.ContentKeys[i] with an induction variable
+			var header *ssa.BasicBlock
+			isVerdictStore := func(in ssa.Instruction) bool {
+				st, ok := in.(*ssa.Store)
+				if !ok {
+					return false
+				}
+				ia, ok := st.Addr.(*ssa.IndexAddr)
+				return ok && isRequestKeysOrVerdicts(ia.X) && isInductionVar(ia.Index)
+			}
+			for _, b := range f.Blocks {
+				for _, in := range b.Instrs {
+					if ph, ok := in.(*ssa.Phi); ok && isInductionVar(ph) && core.InLoop(b) {
+						// the induction variable used to index the verdicts
+						used := false
+						for _, b2 := range f.Blocks {
+							for _, i2 := range b2.Instrs {
+								if st, ok := i2.(*ssa.Store); ok {
+									if ia, ok := st.Addr.(*ssa.IndexAddr); ok && isRequestKeysOrVerdicts(ia.X) && core.Derives(ia.Index, func(v ssa.Value) bool { return v == ssa.Value(ph) }, core.DeriveOpts{}) {
+										used = true
+									}
+								}
+							}
+						}
+						if used {
+							header = b
+						}
+					}
+				}
+			}
+			if header == nil {
+				r.Fail("R1.verdict-length", name+" every-slot-written", p.Pos(f.Pos()), "the loop that writes one verdict per offered key was not found")
+			} else {
+				// (a) success exits are reached only through the loop header
+				w := core.CutReach(core.CutSpec{Fn: f, NoEnter: func(b *ssa.BasicBlock) bool { return b == header },
+					Cut:    func(b *ssa.BasicBlock, i int) bool { return b.Succs[i] == header },
+					Target: core.SuccessTarget(f, nil)})
+				// (b) from the loop body, the header is re-entered only after a verdict store
+				stores := core.BlocksWith(f, isVerdictStore)
+				var w2 []*ssa.BasicBlock
+				for _, body := range header.Succs {
+					if !core.InLoop(body) || !reaches(body, header) {
+						continue
+					}
+					if stores[body] {
+						continue
+					}
+					w2 = core.CutReach(core.CutSpec{Fn: f, From: body,
+						Cut:    func(b *ssa.BasicBlock, i int) bool { return stores[b.Succs[i]] },
+						Target: func(prev, b *ssa.BasicBlock) bool { return b == header && prev != nil }})
+				}
+				r.Check(w == nil && w2 == nil, "R1.verdict-length", name+" every-slot-written", p.Pos(f.Pos()),
+					"every success exit passed the loop over the offered keys and every iteration wrote its key's verdict", "a reply can leave a verdict slot unwritten, and an unwritten slot reads Accepted (0): keys are reported accepted although no gate was evaluated and nothing will be received: "+p.PathString(w)+p.PathString(w2))
+			}
+		}
 
 		// ---- R2: appends to the accepted list
 		var appends []*ssa.Call
